@@ -130,6 +130,14 @@ def _circuit_prims_src():
     return gen_circuit_prims.generate(os.path.join(core.REPO, 'src', 'kyupy', 'circuit.py'))[0]
 
 
+@register('CircuitElimSrc')
+def _circuit_elim_src():
+    import os
+    from translate import gen_circuit_elim
+    from vcheck import core
+    return gen_circuit_elim.generate(os.path.join(core.REPO, 'src', 'kyupy', 'circuit.py'))[0]
+
+
 @register('TraversalsSrc')
 def _traversals_src():
     import os
@@ -144,6 +152,14 @@ def _def_route_src():
     from translate import gen_def_route
     from vcheck import core
     return gen_def_route.generate(os.path.join(core.REPO, 'src', 'kyupy', 'def_file.py'))[0]
+
+
+@register('StilMapsSrc')
+def _stil_maps_src():
+    import os
+    from translate import gen_stil_maps
+    from vcheck import core
+    return gen_stil_maps.generate(os.path.join(core.REPO, 'src', 'kyupy', 'stil.py'))[0]
 
 
 @register('SdfCallbacksSrc')
